@@ -128,6 +128,9 @@ def _eval_cmp(t, total, mark):
         if isinstance(x, ast.Constant) and isinstance(x.value, int) and not isinstance(x.value, bool):
             return x.value
         return None
+    if isinstance(t, ast.UnaryOp) and isinstance(t.op, ast.Not):
+        r = _eval_cmp(t.operand, total, mark)
+        return None if r is None else (not r)
     if isinstance(t, ast.Compare) and len(t.ops) == 1 and type(t.ops[0]) in ops:
         a, b = val(t.left), val(t.comparators[0])
         if a is None or b is None:
@@ -474,6 +477,8 @@ RULES = [rule_r1, rule_r2, rule_r3, rule_r4, rule_r5, rule_r6, rule_r7, rule_r8,
 from ..selftest import M, T, V  # noqa: E402
 
 selftest = [
+    M("plain-lock-condition", "channel.py", "self.outbuf_lock = threading.Condition()", "self.outbuf_lock = threading.Condition(threading.Lock())", "R10"),
+    T("rlock-condition", "channel.py", "self.outbuf_lock = threading.Condition()", "self.outbuf_lock = threading.Condition(threading.RLock())"),
     M("notify-strict-less", "channel.py", "if self.total_outbufs_len <= self.adj.outbuf_high_watermark:\n                    self.outbuf_lock.notify()", "if self.total_outbufs_len < self.adj.outbuf_high_watermark:\n                    self.outbuf_lock.notify()", "R2"),
     M("notify-only-empty", "channel.py", "if self.total_outbufs_len <= self.adj.outbuf_high_watermark:\n                    self.outbuf_lock.notify()", "if self.total_outbufs_len == 0:\n                    self.outbuf_lock.notify()", None),
     M("wait-ge", "channel.py", "                    self.connected\n                    and self.total_outbufs_len > self.adj.outbuf_high_watermark", "                    self.connected\n                    and self.total_outbufs_len >= self.adj.outbuf_high_watermark", "R2"),
